@@ -123,7 +123,13 @@ fn run_bytes(case: &Value, nc: usize, nr: usize, fails: &mut Vec<Fail>) {
         Some(n) if n <= 3 * ((1usize << 32) + 64) => n,
         _ => return,
     };
-    let built = guarded(|| TooDee::<u8>::from_vec(nc, nr, vec![0u8; cells]));
+    // fallible: where the address space (or the overcommit policy) does not allow such a block, the probe is skipped
+    let mut bytes: Vec<u8> = Vec::new();
+    if bytes.try_reserve_exact(cells).is_err() {
+        return;
+    }
+    unsafe { bytes.set_len(cells) }; // (blocks of this size come zeroed from the pass-through allocator and are never read)
+    let built = guarded(|| TooDee::<u8>::from_vec(nc, nr, bytes));
     let mut t = match built {
         Ok(t) => t,
         Err(()) => return,
